@@ -514,6 +514,93 @@ def synthetic_parents(res: Result, shard_i: int, shard_n: int, total: int) -> No
         res.count("synthetic_parent_orders")
 
 
+def _map_prims(spec: describe.StructSpec, tree: dict, ktype: str, fn) -> int:  # noqa: ANN001
+    """Replace every non-null value of primitive type ktype in the tree (in place); returns how many were replaced."""
+    n = 0
+    for fs in spec.fields:
+        v = tree.get(fs.name)
+        if fs.kind == "prim" and fs.ktype == ktype:
+            if fs.array and isinstance(v, list):
+                tree[fs.name] = [fn(x) if x is not None else None for x in v]
+                n += len(v)
+            elif not fs.array and v is not None:
+                tree[fs.name] = fn(v)
+                n += 1
+        elif fs.kind == "struct" and isinstance(v, dict):
+            n += _map_prims(fs.struct, v, ktype, fn)
+        elif fs.kind == "struct" and isinstance(v, list):
+            n += sum(_map_prims(fs.struct, x, ktype, fn) for x in v)
+    return n
+
+
+def alias_twins(res: Result, shard_i: int, shard_n: int) -> None:
+    """Values that Python considers equal (and hashes alike) although they are different values on the wire, encoded one after the other
+    by the same cached writer: a timestamp in both folds of an ambiguous wall-clock time of one zone (same tzinfo: == ignores fold), and
+    0.0 / -0.0.  Anything that remembers a conversion by equality hands the second one the first one's bytes."""
+    import copy as _copy
+
+    from kio.serial import entity_writer
+
+    from .codec import _has_timestamp
+
+    try:
+        import zoneinfo
+
+        zones = [(zoneinfo.ZoneInfo("Europe/Berlin"), 1635642000000), (zoneinfo.ZoneInfo("America/New_York"), 1636264800000)]
+    except Exception:  # noqa: BLE001
+        zones = []
+        res.count("alias_twins_no_zoneinfo")
+    k = 0
+    for cls in walk.classes():
+        spec = describe.spec_from_class(cls)
+        has_ts = bool(zones) and _has_timestamp(spec)
+        has_float = any(fs.kind == "prim" and fs.ktype == "float64" for fs in spec.fields)
+        if not (has_ts or has_float):
+            continue
+        k += 1
+        if k % shard_n != shard_i:
+            continue
+        rng = common.rng_for("C19", "twins", walk.class_path(cls))
+        for rep in range(3):
+            base = gen.Gen(rng, "canonical", big_prob=0.0, max_items=3).struct(spec)
+            zone, t0 = zones[rep % len(zones)] if has_ts else (None, 0)
+            t = t0 - rng.randint(1, 3599999)  # inside the hour that is repeated: t (fold=0) and t + 1 h (fold=1) share a wall clock
+            a, b = _copy.deepcopy(base), _copy.deepcopy(base)
+            n = 0
+            if has_ts:
+                n += _map_prims(spec, a, "datetime_i64", lambda _x, t=t: t)
+                _map_prims(spec, b, "datetime_i64", lambda _x, t=t: t + 3_600_000)
+            if has_float:
+                n += _map_prims(spec, a, "float64", lambda _x: 0.0)
+                _map_prims(spec, b, "float64", lambda _x: -0.0)
+            if not n:
+                continue
+            describe.INSTANCE_TZ = zone
+            try:
+                ia, ib = describe.tree_to_instance(spec, a), describe.tree_to_instance(spec, b)
+            finally:
+                describe.INSTANCE_TZ = None
+            ra, rb = refcodec.encode_bytes(spec, a), refcodec.encode_bytes(spec, b)
+            if ra == rb:
+                continue
+            res.count("alias_twin_pairs")
+            w = entity_writer(cls)
+            for step, (inst, ref, name) in enumerate(((ia, ra, "first"), (ib, rb, "twin"), (ia, ra, "first"), (ib, rb, "twin"))):
+                buf = io.BytesIO()
+                try:
+                    w(buf, inst)
+                    bad = None if buf.getvalue() == ref else f"gave {buf.getvalue()[:48].hex()}.. instead of {ref[:48].hex()}.. (first diff at {refcodec.first_diff(buf.getvalue(), ref)})"
+                except Exception as exc:  # noqa: BLE001
+                    bad = f"raised {exc!r}"
+                res.count("alias_twin_encodes")
+                if bad:
+                    res.violation(f"alias-twin:{'timestamp-fold' if has_ts else 'signed-zero'}",
+                                  f"{walk.class_path(cls)}: encoding the {name} of two ==-equal but different values (step {step} of first/twin/first/twin, "
+                                  f"{'same wall clock in both folds of ' + str(zone) if has_ts else '0.0 / -0.0'}) {bad}",
+                                  {"class": walk.class_path(cls), "first": a, "twin": b, "zone": str(zone), "step": step})
+                    break
+
+
 def stress(res: Result, seconds: float, nthreads: int = 16) -> None:
     """Uncontrolled run: real GIL scheduling with a tiny switch interval (below line granularity)."""
     import time
@@ -606,6 +693,7 @@ def c19_worker(res: Result, i: int, n: int) -> None:
     schedules(res, i, n, 3200 if quick else 240000, sigs, lines)
     fresh_schedules(res, i, n, 160 if quick else 4800, sigs)
     synthetic_parents(res, i, n, 96 if quick else 600)
+    alias_twins(res, i, n)
     res.coverage["distinct_schedule_signatures"] = len(sigs)
     res.coverage["preemption_lines"] = sorted(lines)
     if i == 0:
